@@ -262,6 +262,71 @@ def strlit_hints(lits):
 INSPECT_RE = re.compile(r"\s*\.inspect_err\(\|_\|\s*\{\s*context\.pop_element\(\);\s*\}\)\?")
 
 
+def rewrite_continue(text):
+    """R-continue: Verus rejects `continue` inside a `for` loop. In `LOOPBODY { .. if C { S; continue; } REST }`
+    where `continue;` is the LAST statement of an `if` block that is itself a statement of the loop
+    body, `REST` runs exactly when the block was not taken:
+        if C { S; continue; } REST              ==>  if C { S; } else { REST }
+        if C { S; continue; } else if D { X } REST  ==>  if C { S; } else { if D { X } REST }
+    Applied to every such `continue`; any other `continue` is left alone (and will be reported by Verus)."""
+    n = 0
+    pos = 0
+    while True:
+        src = rsitems.Src(text)
+        m = None
+        for mm in re.finditer(r"\bcontinue\s*;", text):
+            if mm.start() >= pos and src.mask[mm.start()]:
+                m = mm
+                break
+        if m is None:
+            return text, n
+        pos = m.start() + 1
+        # the block that ends right after `continue;`
+        j = m.end()
+        while j < len(text) and (text[j].isspace() or not src.mask[j]):
+            j += 1
+        if j >= len(text) or text[j] != "}":
+            continue
+        close_if = j
+        # opening brace of that block, and of the enclosing block (the loop body)
+        depth, k, open_if = 0, m.start() - 1, None
+        while k >= 0:
+            if src.mask[k]:
+                if text[k] in ")]}":
+                    depth += 1
+                elif text[k] in "([{":
+                    if depth == 0:
+                        open_if = k
+                        break
+                    depth -= 1
+            k -= 1
+        if open_if is None or text[open_if] != "{":
+            continue
+        depth, k, open_body = 0, open_if - 1, None
+        while k >= 0:
+            if src.mask[k]:
+                if text[k] in ")]}":
+                    depth += 1
+                elif text[k] in "([{":
+                    if depth == 0:
+                        open_body = k
+                        break
+                    depth -= 1
+            k -= 1
+        if open_body is None or text[open_body] != "{":
+            continue
+        close_body = src.match_close(open_body)
+        after = text[close_if + 1:close_body]
+        mm2 = re.match(r"(\s*)else\b", after)
+        if mm2:
+            mid = after[:mm2.end()] + " {" + after[mm2.end():]
+        else:
+            mid = " else {" + after
+        text = text[:m.start()] + text[m.end():close_if + 1] + mid + "}\n" + text[close_body:]
+        n += 1
+        pos = m.start()
+
+
 def rewrite_inspect_err(text):
     """R-inspect-err: `EXPR.inspect_err(|_| { context.pop_element(); })?` ->
     `match EXPR { Ok(v_) => v_, Err(err_) => { context.pop_element(); return Err(err_); } }`
@@ -718,7 +783,7 @@ def expand(unit_path, twin=False, repo=None):
     repo = repo or REPO
     w = Woven()
     lines = open(unit_path).read().split("\n")
-    flags = {"f32": False, "fmt": False, "strlit": False, "inspect_err": False, "strmatch": False, "plain": False}
+    flags = {"f32": False, "fmt": False, "strlit": False, "inspect_err": False, "strmatch": False, "plain": False, "continue": False}
     w.flags = flags
     src_cache = {}
     i = 0
@@ -866,6 +931,10 @@ def expand(unit_path, twin=False, repo=None):
                     raise WeaveError("%s :: %s: replace[%s] %r matched %d times" % (file, " :: ".join(path), rule, old, cnt))
                 text = text.replace(old_, new_)
                 applied.append({"rule": rule, "old": old, "new": new, "count": cnt})
+            if flags.get("continue") and it.kind == "fn":
+                text, nrw = rewrite_continue(text)
+                if nrw:
+                    applied.append({"rule": "R-continue", "count": nrw})
             if flags.get("inspect_err") and it.kind == "fn":
                 text, nrw = rewrite_inspect_err(text)
                 if nrw:
